@@ -84,9 +84,11 @@ def seq(*xs):
 
 def alt(*xs):
     out: list = []
+    seen = set()
     for x in xs:
         for y in (x.items if isinstance(x, Alt) else (x,)):
-            if y not in out:
+            if y not in seen:
+                seen.add(y)
                 out.append(y)
     return out[0] if len(out) == 1 else Alt(tuple(out))
 
